@@ -18,6 +18,10 @@ def load_known():
                 line = line.strip()
                 if not line or line.startswith("#"):
                     continue
+                if line.startswith("fixed:"):
+                    # "fixed: property=<id> <commit> <what failed>" - a record only, suppresses nothing
+                    fixed.append({"line": line})
+                    continue
                 e = json.loads(line)
                 if e.get("status") == "fixed":
                     fixed.append(e)
